@@ -14,7 +14,13 @@
 //      ccc / Bidi_Class / gc=M against ICU for age <= 15.0
 //  (c) Punycode: RFC 3492 section 7.1 samples, python-codec vectors, random round trips, error cases
 //  (d) a few hand-written pipeline facts (each one pinned by the specification text)
+//  (e) whole pipeline against ICU's UTS #46 (uidna, Unicode 15.0) on random domains over a curated
+//      alphabet of code points whose IDNA status/mapping did not change between 15.0 and 17.0.
+//      This is the only second opinion for CheckBidi (the WPT vectors were generated with
+//      --exclude-bidi) and an independent one for ContextJ.  Known rule changes after 15.0
+//      (ACE labels that decode to ASCII only) are excluded by construction and counted.
 #include <unicode/uchar.h>
+#include <unicode/uidna.h>
 #include <unicode/unorm2.h>
 #include <unicode/ustring.h>
 #include <unicode/uversion.h>
@@ -632,6 +638,139 @@ static void part_d() {
   check(ri::utf8_to_utf32("a\xFFz") == P("0061 FFFD 007A"), "d", "utf8 lossy");
 }
 
+// ---- part (e) ------------------------------------------------------------------------------------
+static void part_e() {
+  UErrorCode ec = U_ZERO_ERROR;
+  UIDNA* idna = uidna_openUTS46(UIDNA_CHECK_BIDI | UIDNA_CHECK_CONTEXTJ | UIDNA_NONTRANSITIONAL_TO_ASCII | UIDNA_NONTRANSITIONAL_TO_UNICODE, &ec);
+  if (U_FAILURE(ec)) {
+    check(false, "e", "uidna_openUTS46 failed");
+    return;
+  }
+  // errors that the URL Standard's options switch off (CheckHyphens=false, VerifyDnsLength=false)
+  const uint32_t ignored = UIDNA_ERROR_EMPTY_LABEL | UIDNA_ERROR_LABEL_TOO_LONG | UIDNA_ERROR_DOMAIN_NAME_TOO_LONG |
+                           UIDNA_ERROR_LEADING_HYPHEN | UIDNA_ERROR_TRAILING_HYPHEN | UIDNA_ERROR_HYPHEN_3_4;
+  static const char32_t alpha[] = {
+      // ASCII
+      'a', 'b', 'c', 'x', 'n', 'z', 'A', 'Z', '0', '1', '9', '-', '-', '.', '.', '.',
+      // Latin-1 / Greek / Cyrillic
+      0xE9, 0xDF, 0xC9, 0x3B1, 0x3C2, 0x3C3, 0x3A3, 0x430, 0x416,
+      // marks
+      0x300, 0x301, 0x308, 0x323, 0x334, 0x327,
+      // Hebrew letters, point, punctuation (maqaf R, geresh R)
+      0x5D0, 0x5D1, 0x5EA, 0x5B0, 0x5BC, 0x5BE, 0x5F3,
+      // Arabic: D, R, D, U(hamza), tatweel C, marks T, AN digits, EN digits (extended), AN separator CS? (060C is CS)
+      0x628, 0x627, 0x644, 0x621, 0x640, 0x64E, 0x651, 0x660, 0x661, 0x6F0, 0x6F1, 0x60C, 0x66B,
+      // Syriac D/R, N'Ko D, Thaana (AL, U), Mongolian D, Phags-pa L
+      0x712, 0x715, 0x7CA, 0x7D0, 0x780, 0x1820, 0x1822, 0xA872,
+      // Devanagari letter, nukta, virama, sign; Bengali virama; joiners
+      0x915, 0x937, 0x93C, 0x94D, 0x93F, 0x9CD, 0x200C, 0x200C, 0x200D, 0x200D,
+      // Hangul
+      0x1100, 0x1161, 0x11A8, 0xAC00, 0xAC01,
+      // mapped / ignored / dots / disallowed / symbols (ON, ET, ES, CS)
+      0xFF41, 0xFF0E, 0x3002, 0xAD, 0x2126, 0x212B, 0xFB01, 0xFFFD, 0x2665, 0x20AC, 0x2212, 0xA0,
+      0x5E74, 0x1F600, 0x10330 /* Gothic L */, 0x10800 /* Cypriot R */, 0x1E900 /* Adlam capital, mapped, R */, 0x1E944 /* Adlam mark NSM */,
+  };
+  const uint32_t na = sizeof(alpha) / sizeof(alpha[0]);
+  Lcg rng(0x46e);
+  long compared = 0, skipped_ace_ascii = 0, n_ok = 0, n_bidi = 0, n_bidi_ok = 0, n_bidi_err = 0, n_bidi_only = 0, n_ctxj_err = 0, n_ctxj_only = 0, n_joiner_ok = 0, bad = 0;
+  const long kN = 400000;
+  for (long i = 0; i < kN; i++) {
+    std::u32string dom;
+    int labels = 1 + (int)rng.below(3);
+    for (int l = 0; l < labels; l++) {
+      if (l) dom.push_back('.');
+      uint32_t kind = rng.below(12);
+      std::u32string lab;
+      int len = 1 + (int)rng.below(5);
+      // bias towards single-script labels so that many survive validation
+      uint32_t lo = 0, hi = na;
+      uint32_t focus = rng.below(6);
+      if (focus == 0) { lo = 0; hi = 13; }
+      else if (focus == 1) { lo = 31; hi = 38; }
+      else if (focus == 2) { lo = 38; hi = 51; }
+      else if (focus == 3) { lo = 59; hi = 69; }
+      for (int k = 0; k < len; k++) {
+        char32_t c = rng.below(4) ? alpha[lo + rng.below(hi - lo)] : alpha[rng.below(na)];
+        if (c == '.' && kind < 3) c = 'a';
+        lab.push_back(c);
+      }
+      if (kind == 0 || kind == 1) {
+        // ACE form of the label (valid or not)
+        std::u32string m;
+        ri::map(lab, m);
+        std::u32string src = kind == 0 ? ri::nfc(m) : lab;
+        std::string p;
+        if (ri::punycode_encode(src, p)) {
+          lab = A("xn--") + p.c_str();
+        }
+      } else if (kind == 2) {
+        std::u32string junk = A("xn--");
+        for (int k = 0; k < len; k++) junk.push_back((char32_t)"abcxyz019-"[rng.below(10)]);
+        lab = junk;
+      }
+      dom += lab;
+    }
+    // known post-15.0 rule: ACE label whose payload has no delta part decodes to ASCII only -> error
+    bool ace_ascii = false;
+    {
+      std::u32string m;
+      ri::map(dom, m);
+      m = ri::nfc(m);
+      size_t st = 0;
+      for (;;) {
+        size_t e = m.find(U'.', st);
+        std::u32string lab = m.substr(st, e == std::u32string::npos ? std::u32string::npos : e - st);
+        if (lab.size() >= 4 && lab.substr(0, 4) == A("xn--") && (lab.size() == 4 || lab.back() == '-')) ace_ascii = true;
+        if (e == std::u32string::npos) break;
+        st = e + 1;
+      }
+    }
+    if (ace_ascii) {
+      skipped_ace_ascii++;
+      continue;
+    }
+    std::string mine;
+    ri::DomainInfo info;
+    bool ok = ri::to_ascii(dom, mine, &info);
+    std::u16string in16 = to16(dom);
+    UChar buf[512];
+    UIDNAInfo ii = UIDNA_INFO_INITIALIZER;
+    ec = U_ZERO_ERROR;
+    int32_t n = uidna_nameToASCII(idna, (const UChar*)in16.data(), (int32_t)in16.size(), buf, 512, &ii, &ec);
+    if (U_FAILURE(ec)) {
+      check(false, "e", "uidna_nameToASCII: " + std::string(u_errorName(ec)));
+      continue;
+    }
+    uint32_t errs = ii.errors & ~ignored;
+    bool icu_ok = errs == 0;
+    std::string theirs;
+    for (int32_t k = 0; k < n; k++) theirs.push_back((char)buf[k]);
+    compared++;
+    if (ok) n_ok++;
+    if (info.is_bidi_domain) n_bidi++;
+    if (ok && info.is_bidi_domain) n_bidi_ok++;
+    if (ok && info.has_joiner) n_joiner_ok++;
+    if (errs & UIDNA_ERROR_BIDI) n_bidi_err++;
+    if (errs == UIDNA_ERROR_BIDI) n_bidi_only++;
+    if (errs & UIDNA_ERROR_CONTEXTJ) n_ctxj_err++;
+    if (errs == UIDNA_ERROR_CONTEXTJ) n_ctxj_only++;
+    bool same = ok == icu_ok && (!ok || mine == theirs);
+    if (!same) {
+      bad++;
+      char eb[32];
+      std::snprintf(eb, sizeof eb, "0x%X", ii.errors);
+      check(false, "e/icu-uts46", hexcps(dom) + " model=" + (ok ? mine : "-") + " icu=" + theirs + " icu_errors=" + eb);
+    } else {
+      g_pass++;
+    }
+  }
+  uidna_close(idna);
+  std::printf("part e: %ld domains vs ICU uidna: %ld accepted (%ld of them Bidi domains, %ld with joiners); %ld Bidi domains, "
+              "ICU Bidi errors %ld (%ld as the only error), ICU ContextJ errors %ld (%ld as the only error); "
+              "%ld skipped for the ACE-to-ASCII rule; %ld bad\n",
+              compared, n_ok, n_bidi_ok, n_joiner_ok, n_bidi, n_bidi_err, n_bidi_only, n_ctxj_err, n_ctxj_only, skipped_ace_ascii, bad);
+}
+
 static void perf() {
   Lcg rng(42);
   static const char32_t alpha[] = U"abcdefghijklmnopqrstuvwxyz0123456789-\u00E9\u00DF\u03B1\u03C9\u0430\u044F\u05D0\u0628\u0915\u094D\u200D\u0301";
@@ -672,6 +811,7 @@ int main(int argc, char** argv) {
   part_b(data_dir);
   part_c(data_dir);
   part_d();
+  part_e();
   perf();
   std::printf("SELFTEST idna: pass=%ld fail=%ld\n", g_pass, g_fail);
   return g_fail == 0 ? 0 : 1;
